@@ -1,6 +1,6 @@
 (* C14 -- property theorems only; each closed by `exact` and followed by Print Assumptions. *)
 Require Import SF.Prelude SF.Value SF.Dtype SF.Missing SF.MissingCheck
-  Proofs.MissingSpec Proofs.MissingKernel Proofs.MissingAxis1 Proofs.MissingRows Gen.Gen_c14 Proofs.MissingNa Proofs.MissingDrop Proofs.MissingGen.
+  Proofs.MissingSpec Proofs.MissingKernel Proofs.MissingAxis1 Proofs.MissingRows SF.MissingFill Gen.Gen_c14 Proofs.MissingFill Proofs.MissingNa Proofs.MissingDrop Proofs.MissingGen.
 
 (* THE central theorem.  For EVERY partition of a row into 1-D / 2-D blocks of any widths (rows of a well-formed block list
    of any number of rows), the block-wise forward fill of TypeBlocks._fillna_directional_axis_1 -- bridging_values,
@@ -145,3 +145,19 @@ Theorem C14_dropna_keep_any_decision_guarded : forall (A : Type) (reshaped axis1
   M_dropna_keep reshaped axis1 use_any nrows single1d (map (map is_missing) cols) = S_keep axis1 use_any nrows cols.
 Proof. exact @dropna_keep_refines. Qed.
 Print Assumptions C14_dropna_keep_any_decision_guarded.
+
+(* Series.fillna(Series): for ANY label type with a reflexive Boolean equality under which the receiver's labels are pairwise
+   different (C02), the code's label-restricted fill -- intersect the labels of the missing cells with the container's labels,
+   re-select by isin, reindex the container with util.dtype_to_fill_value as filler, assign -- equals the specification:
+   covered missing cells take the container's cell, every other cell is untouched, and the filler `fillv` never reaches a cell. *)
+Theorem C14_fillna_series_refines : forall (L A : Type) (eqb : L -> L -> bool), (forall a, eqb a a = true) ->
+  forall (fillv : option A) (labels : list L) (l : list (option A)) (other : list (L * option A)),
+  uniq eqb labels -> length labels = length l ->
+  M_fillna_series eqb fillv labels l other = S_fillna_labels_g eqb labels l other.
+Proof. exact @fillna_series_refines. Qed.
+Print Assumptions C14_fillna_series_refines.
+
+Theorem C14_fillna_labels_spec_is_generic : forall (A : Type) (labels : list val) (l : list (option A)) (other : list (val * option A)),
+  S_fillna_labels labels l other = S_fillna_labels_g py_val_eq labels l other.
+Proof. exact @S_fillna_labels_is_generic. Qed.
+Print Assumptions C14_fillna_labels_spec_is_generic.
